@@ -390,6 +390,10 @@ impl<'r> G<'r> {
 
     /// `null_ok`: position is a statement_or_null (A.6.4); always/final take a statement
     fn stmt_x(&mut self, names: &[String], d: usize, null_ok: bool) {
+        if d <= 2 && self.r.chance(1, 6) {
+            self.stmt_extra(names, d);
+            return;
+        }
         let mut k = self.r.below(100);
         if !null_ok && k >= 97 {
             k = 0;
@@ -568,6 +572,165 @@ impl<'r> G<'r> {
         } else {
             self.cnt("null_stmt");
             self.sym(";");
+        }
+    }
+
+    /// further statement forms of A.6 (chosen by `stmt_x` with a separate weight)
+    fn stmt_extra(&mut self, names: &[String], d: usize) {
+        match self.r.below(13) {
+            0 => {
+                self.cnt("foreach");
+                self.kw("foreach");
+                self.sym("(");
+                self.lvalue(names);
+                self.sym("[");
+                let i = self.fresh(false);
+                self.id(&i);
+                self.sym("]");
+                self.sym(")");
+                // A.6.8: foreach takes a statement, not a statement_or_null
+                self.stmt_x(names, d + 1, false);
+            }
+            1 => {
+                self.cnt("jump");
+                self.kwp(&["break", "continue", "return"]);
+                self.sym(";");
+            }
+            2 => {
+                self.cnt("disable");
+                self.kw("disable");
+                if self.r.chance(1, 3) {
+                    self.kw("fork");
+                } else {
+                    let l = self.fresh(false);
+                    self.id(&l);
+                }
+                self.sym(";");
+            }
+            3 => {
+                self.cnt("tf_call_stmt");
+                let f = self.fresh(false);
+                self.id(&f);
+                self.sym("(");
+                self.expr(names, 2);
+                if self.r.chance(1, 2) {
+                    self.sym(",");
+                    self.expr(names, 2);
+                }
+                self.sym(")");
+                self.sym(";");
+            }
+            4 => {
+                self.cnt("method_call_stmt");
+                self.lvalue(names);
+                self.sym(".");
+                let m = self.fresh(false);
+                self.id(&m);
+                self.sym("(");
+                if self.r.chance(1, 2) {
+                    self.expr(names, 2);
+                }
+                self.sym(")");
+                self.sym(";");
+            }
+            5 => {
+                self.cnt("inc_dec_stmt");
+                if self.r.chance(1, 2) {
+                    self.lvalue(names);
+                    self.symp(&["++", "--"]);
+                } else {
+                    self.symp(&["++", "--"]);
+                    self.lvalue(names);
+                }
+                self.sym(";");
+            }
+            6 => {
+                self.cnt("void_cast_stmt");
+                self.kw("void");
+                self.sym("'");
+                self.sym("(");
+                let f = self.fresh(false);
+                self.id(&f);
+                self.sym("(");
+                self.expr(names, 2);
+                self.sym(")");
+                self.sym(")");
+                self.sym(";");
+            }
+            7 => {
+                self.cnt("immediate_assert");
+                self.kwp(&["assert", "assume", "cover"]);
+                self.sym("(");
+                self.expr(names, 1);
+                self.sym(")");
+                if self.r.chance(1, 2) {
+                    self.sym(";");
+                } else {
+                    self.kw("$display");
+                    self.sym("(");
+                    self.st("\"ok\"");
+                    self.sym(")");
+                    self.sym(";");
+                }
+            }
+            8 => {
+                self.cnt("event_trigger");
+                self.symp(&["->", "->>"]);
+                self.lvalue(names);
+                self.sym(";");
+            }
+            9 => {
+                self.cnt("wait_fork");
+                self.kw("wait");
+                self.kw("fork");
+                self.sym(";");
+            }
+            10 => {
+                self.cnt("member_assign");
+                self.lvalue(names);
+                self.sym(".");
+                let m = self.fresh(false);
+                self.id(&m);
+                if self.r.chance(1, 3) {
+                    self.sym("[");
+                    self.num("1");
+                    self.sym("]");
+                }
+                self.symp(&["=", "<="]);
+                self.expr(names, 1);
+                self.sym(";");
+            }
+            11 => {
+                self.cnt("labelled_stmt");
+                let l = self.fresh(false);
+                self.id(&l);
+                self.fact("BlockIdentifier", &l);
+                self.sym(":");
+                self.lvalue(names);
+                self.sym("<=");
+                self.expr(names, 1);
+                self.sym(";");
+            }
+            _ => {
+                self.cnt("procedural_continuous");
+                match self.r.below(3) {
+                    0 => {
+                        self.kwp(&["assign", "force"]);
+                        self.lvalue(names);
+                        self.sym("=");
+                        self.expr(names, 1);
+                    }
+                    1 => {
+                        self.kwp(&["deassign", "release"]);
+                        self.lvalue(names);
+                    }
+                    _ => {
+                        self.kw("return");
+                        self.expr(names, 1);
+                    }
+                }
+                self.sym(";");
+            }
         }
     }
 
@@ -1094,9 +1257,153 @@ impl<'r> G<'r> {
         let _ = names;
     }
 
+    /// further module items of A.1.4 / A.3 / A.2
+    fn item_extra(&mut self, names: &mut Vec<String>, params: &mut Vec<String>, kind: &str) {
+        match self.r.below(8) {
+            0 => {
+                self.cnt("enum_var");
+                self.kw("enum");
+                self.sym("{");
+                let k = self.r.range(1, 3);
+                for i in 0..k {
+                    if i > 0 {
+                        self.sym(",");
+                    }
+                    let e = self.fresh(false);
+                    self.id(&e);
+                    self.fact("EnumNameDeclaration", &e);
+                }
+                self.sym("}");
+                let v = self.fresh(false);
+                self.decl(&v, "var");
+                self.fact("VariableDeclAssignment", &v);
+                self.sym(";");
+            }
+            1 => {
+                self.cnt("struct_var");
+                self.kwp(&["struct", "union"]);
+                if self.r.chance(1, 2) {
+                    self.kw("packed");
+                }
+                self.sym("{");
+                for _ in 0..self.r.range(1, 2) {
+                    self.kwp(&["logic", "bit", "int"]);
+                    let f = self.fresh(false);
+                    self.id(&f);
+                    self.fact("VariableDeclAssignment", &f);
+                    self.sym(";");
+                }
+                self.sym("}");
+                let v = self.fresh(false);
+                self.decl(&v, "var");
+                self.fact("VariableDeclAssignment", &v);
+                self.sym(";");
+                names.push(v);
+            }
+            2 if kind == "module" => {
+                self.cnt("gate");
+                self.kwp(&["and", "or", "nand", "nor", "xor", "xnor"]);
+                if self.r.chance(1, 2) {
+                    let g = self.fresh(false);
+                    self.id(&g);
+                }
+                self.sym("(");
+                let a = if names.is_empty() { "x".to_string() } else { self.r.pick(names).clone() };
+                self.id(&a);
+                self.sym(",");
+                self.id(&a);
+                self.sym(",");
+                self.id(&a);
+                self.sym(")");
+                self.sym(";");
+            }
+            3 if kind == "module" => {
+                self.cnt("buf_pull");
+                match self.r.below(3) {
+                    0 => {
+                        self.kwp(&["buf", "not"]);
+                        self.sym("(");
+                        self.id("o");
+                        self.sym(",");
+                        self.id("i");
+                        self.sym(")");
+                    }
+                    1 => {
+                        self.kwp(&["pullup", "pulldown"]);
+                        self.sym("(");
+                        self.id("o");
+                        self.sym(")");
+                    }
+                    _ => {
+                        self.kwp(&["bufif0", "notif1"]);
+                        self.sym("(");
+                        self.id("o");
+                        self.sym(",");
+                        self.id("i");
+                        self.sym(",");
+                        self.id("e");
+                        self.sym(")");
+                    }
+                }
+                self.sym(";");
+            }
+            4 => {
+                self.cnt("attribute_item");
+                self.sym("(*");
+                let a = self.fresh(false);
+                self.id(&a);
+                if self.r.chance(1, 2) {
+                    self.sym("=");
+                    self.num("1");
+                }
+                self.sym("*)");
+                self.var_decl(names);
+            }
+            5 => {
+                self.cnt("type_param");
+                self.kwp(&["parameter", "localparam"]);
+                self.kw("type");
+                let t = self.fresh(false);
+                self.decl(&t, "typedef");
+                self.fact("TypeAssignment", &t);
+                self.sym("=");
+                self.kwp(&["int", "logic", "bit"]);
+                self.sym(";");
+                let _ = params;
+            }
+            6 if kind == "module" => {
+                self.cnt("defparam");
+                self.kw("defparam");
+                let a = self.fresh(false);
+                let b = self.fresh(false);
+                self.id(&a);
+                self.sym(".");
+                self.id(&b);
+                self.sym("=");
+                self.num("3");
+                self.sym(";");
+            }
+            _ => {
+                self.cnt("const_var");
+                self.kw("const");
+                self.kwp(&["int", "logic", "bit"]);
+                let v = self.fresh(false);
+                self.decl(&v, "var");
+                self.fact("VariableDeclAssignment", &v);
+                self.sym("=");
+                self.num("1");
+                self.sym(";");
+            }
+        }
+    }
+
     fn module_items(&mut self, names: &mut Vec<String>, params: &mut Vec<String>, kind: &str, nonansi: bool) {
         let n = self.r.range(1, self.opts.max_items);
         for _ in 0..n {
+            if self.r.chance(1, 8) {
+                self.item_extra(names, params, kind);
+                continue;
+            }
             let k = self.r.below(100);
             if k < 14 {
                 if kind == "program" || kind == "package" {
